@@ -87,7 +87,8 @@ def isTauriParamType : GTy → Bool
       match l with
       | (a, _, _) :: (b, _, _) :: [] =>
         if a = cl!"tauri" then
-          some (b = cl!"AppHandle" || b = cl!"Window" || b = cl!"WebviewWindow" || b = cl!"State" || b = cl!"Manager")
+          some (b = cl!"AppHandle" || b = cl!"Window" || b = cl!"WebviewWindow" || b = cl!"State" || b = cl!"Manager" ||
+                b = cl!"Channel")   -- `tauri::Channel<T>`: fix 755cfc6
         else none
       | (a, _, _) :: (b, _, _) :: (c, _, _) :: [] =>
         if a = cl!"tauri" && b = cl!"ipc" then some (c = cl!"Request" || c = cl!"Channel") else none
@@ -449,11 +450,14 @@ def sortBy {α : Type} (key : α → Str) : List α → List α
 def analyze (p : Project) : Analysis :=
   let files := sortedFiles (p.files.filter (fileSelected p.absRoot))
   let commands := files.flatMap fun f => fileCommands f.relPath f.items
-  let events := files.flatMap fun f => fileEvents f.relPath f.items
+  -- one entry per event name, first occurrence in processing order (fix c10c97b); the payload types of
+  -- *all* emit sites are still handed to the type discovery
+  let allEvents := files.flatMap fun f => fileEvents f.relPath f.items
+  let events := allEvents.foldl (fun acc e => if acc.any (fun k => k.name = e.name) then acc else acc ++ [e]) []
   let seeds := harvestAll (
     (commands.flatMap fun c => c.channels.map (·.msgType)) ++
     (commands.flatMap fun c => c.params.map (·.rustType) ++ [c.ret]) ++
-    events.map (·.payload))
+    allEvents.map (·.payload))
   let ndefs := (files.flatMap fun f => fileDefs f.items).length
   let resolved := resolve files (ndefs * (ndefs + 2) + seeds.length + 2) seeds []
   let sorted := sortBy (fun (d : SInfo × List Str) => d.1.name) resolved
